@@ -9,7 +9,7 @@ b=$(mktemp -d /tmp/vseed.XXXXXX)
 cmake -G Ninja -S "$wt" -B "$b" -DCMAKE_BUILD_TYPE=RelWithDebInfo -DCMAKE_C_FLAGS=-Wno-error >/dev/null 2>&1 && cmake --build "$b" -j16 >/dev/null 2>&1 && ctest --test-dir "$b" -j8 --timeout 900 >"$b/ct.log" 2>&1
 suite=$?
 grep "tests passed" "$b/ct.log"
-cc="gcc -O2 -w -I$wt/src $wt/demo.c $srcs -o $b/demo -lm"
+cc="gcc -O2 -w -I$wt/src $wt/demo.c $srcs -o $b/demo -lm -lpthread"
 $cc || echo "demo compile failed (with change)"
 "$b/demo" >/dev/null 2>&1; with=$?
 git diff > "$b/p.patch"
